@@ -21,7 +21,7 @@ RULE = ("fault enumeration: base scenarios (families mix, storm, deadline, churn
         "missing-facility configuration applicable to the method (epoll_pwait2 ENOSYS/EPERM, timerfd_create ENOSYS mid-run, ppoll ENOSYS mid-run, "
         "epoll_create1, eventfd2, eventfd) x EINTR injected at wait call k (quick k=1..3, thorough every k reached); every log replayed through the "
         "Lean machine and all monitors; plus method selection on random IV_EXCLUDE_POLL_METHOD strings x epoll availability against Ivy.L1.Select. "
-        "non-trivial = a run in which an injected fault actually fired or a non-default method was selected; distinct by log hash")
+        "plus C09's scenario programs in the three iv_event_raw transports (eventfd2 / old eventfd / pipe fallback) x four methods with C09's oracle. non-trivial = a run in which an injected fault actually fired or a non-default method was selected; distinct by log hash")
 
 
 def with_cfg(lines, method, flags, eintr=None):
@@ -149,6 +149,24 @@ def run(tier, seed, proof):
             res.divergences.append((f"method selection: implementation chose {im}, Ivy.L1.Select.select says {mo} for IV_EXCLUDE_POLL_METHOD={s!r} epoll_available={ep}",
                                     common.write_case(PROP, "select", sc, tier, seed, ext="scn")))
             break
+    # iv_event_raw's transports (eventfd2 / old eventfd / pipe fallback when eventfd is missing): the scenario programs and the log-only
+    # oracle of C09, run under the deterministic scheduler in all three transports x four methods; a failure there is a failure of the
+    # "optional facility is missing -> the library falls back transparently" clause and is reported here as well
+    from . import c09
+    sub = c09.run(tier, seed, proof)
+    res.evaluations += sub.evaluations
+    res.nontrivial |= set("raw-" + x for x in sub.nontrivial)
+    for sig, msg, pth in sub.impl_violations:
+        if pth and os.path.isfile(pth):
+            txt = open(pth).read()
+            open(pth, "w").write("# raw-transport case (replayed by vlib/c09.py)\n" + txt)
+        res.impl_violations.append(("C15:raw:" + sig, "fallback of iv_event_raw when eventfd2/eventfd are missing: " + msg, pth))
+    for d, pth in sub.divergences:
+        if pth and os.path.isfile(pth):
+            txt = open(pth).read()
+            open(pth, "w").write("# raw-transport case (replayed by vlib/c09.py)\n" + txt)
+        res.divergences.append(("raw transports: " + d, pth))
+    res.extra["raw_transport_runs"] = sub.extra.get("runs_per_family_and_transport")
     res.extra["faults_fired"] = dict(fired)
     res.extra["selection_cases"] = len(sel)
     res.extra["configurations_per_base"] = sum(len(v) for v in FACILITIES.values())
@@ -159,4 +177,8 @@ def search(tier, seed, proof):
     return l1.search_property(PROP, tier, seed, ["mix"], MONS, SANS, n=200)
 
 
-replay = l1.replay
+def replay(path):
+    if "# raw-transport case" in open(path).read():
+        from . import c09
+        return c09.replay(path)
+    return l1.replay(path)
